@@ -81,6 +81,29 @@ func (o *Oracle) updateFields(src engine.Struct, S types.Type, pre engine.Value,
 		}
 		var sv engine.Value
 		var st types.Type
+		if fs != nil && fs.Fn != "" && fs.Getter && o.Calls != nil {
+			// the getter's result is the source value of this field: the zero-value rules apply to it
+			var call *CallEntry
+			for _, c := range o.Calls.Calls {
+				if c.Name == fs.Fn && len(c.SourceArgs) > 0 && o.Identical(c.SourceArgs[0], src).IsTrue() {
+					call = c
+				}
+			}
+			if call == nil {
+				o.fail(fpath, "getter %s was not called on the source", fs.Fn)
+				continue
+			}
+			rt := call.ResultType
+			zero := o.R.Name(o.IsZero(call.Result, rt))
+			zeroGo := o.R.Name(o.isZeroGo(call.Result, rt))
+			is := o.collect(func() { o.Match(call.Result, rt, post[i], tf.Type(), fpath) })
+			o.leaf(fpath, engine.Implies(engine.Not(zeroGo), is), "field is not the getter's non-zero result")
+			if u.selected(zeroCategory(rt)) {
+				o.leaf(fpath, engine.Implies(zero, unchanged()), "zero-valued getter result overwrote the target although update:ignoreZeroValueField is set")
+			}
+			o.leaf(fpath, engine.Implies(zeroGo, engine.Or(is, unchanged())), "field is neither the getter's result nor unchanged")
+			continue
+		}
 		if fs != nil && fs.Fn != "" {
 			// custom function result is assigned; with zero guards when the *result* category is selected.
 			var args []engine.Value
